@@ -30,6 +30,11 @@ CHECKS = {
         technique="property-based testing (Hypothesis) with exhaustive enumeration of every attribute occurrence x {$, empty} x {strict, lenient} per generated population; decision-table oracle from the statement",
         text="For each generated conforming population every non-derived attribute occurrence (every kind, optional/required, own/inherited, inside complex parts) is nulled in turn and read in both modes by the driver and by p21read; severity, exit status, the written filler and the integrity of all other instances are compared with the statement's table.",
         note="Enumeration is exhaustive per population (quick tier caps repeats of the same class per population, counted). The outcome of an *empty* required value in lenient mode is not fixed by the statement and is executed but not asserted. Defined types over INTEGER/REAL/NUMBER/STRING are classified by their base kind."),
+    "C16": dict(
+        level="exploration", ref="DESIGN.md section 4 C16",
+        technique="property-based testing (Hypothesis): generated schema x (partially filled) population x state assignment x save/load cycles; model comparison via independent parser of the working-session syntax, state comparison, byte comparison of successive saves",
+        text="The real library reads a generated exchange file, assigns drawn states, writes a working-session file, reloads it in a fresh session and saves twice more; the saved text is parsed independently (state letters, values), the reloaded session must hold exactly the non-deleted instances with their saved states and model values, and later saves must be byte-identical (first save minus the deleted records).",
+        note="Only instances nobody references are marked deleted (a reference to a deleted instance is not a conforming reload); partially filled instances use required attributes of kinds without lenient filler and are forced to state I."),
     "C19": dict(
         level="exploration", ref="DESIGN.md section 4 C19",
         technique="stateful property-based testing (Hypothesis RuleBasedStateMachine) + exhaustive enumeration of short operation sequences against a list/multiset/set model",
